@@ -65,10 +65,10 @@ func (w *envelopeWriter) Marshal(message any) *Error {
 	if err != nil {
 		return errorf(CodeInternal, "marshal message: %w", hideEOF(err))
 	}
-	// We can't avoid allocating the byte slice, so we may as well reuse it once
-	// we're done with it.
+	// The slice is the codec's: it may be memory the codec keeps (a cached
+	// encoding, the caller's own bytes), so it mustn't go into the buffer pool,
+	// where the next user would overwrite it.
 	buffer := bytes.NewBuffer(raw)
-	defer w.bufferPool.Put(buffer)
 	envelope := &envelope{Data: buffer}
 	return w.Write(envelope)
 }
